@@ -21,7 +21,7 @@ use vcore::{enumerate as en, Check, Stats};
 
 const SIGMA_NAME: &[&str] = &["a", "Z", "_", "0", "é", "-", " "];
 /// the ASCII neighbours of `0-9`, `A-Z`, `a-z`, `_`, plus NUL and a non-ASCII letter
-const SIGMA_EDGE: &[&str] = &["A", "z", "9", "/", ":", "@", "[", "`", "{", "^", "\u{0}", "ª"];
+const SIGMA_EDGE: &[&str] = &["A", "z", "9", "/", ":", "@", "[", "`", "{", "^", "\u{0}", "ª", "ñ", "²"];
 const SIGMA_NUM: &[&str] = &["0", "1", "9", "-", "+", ".", "e", "E", "a", " "];
 const TYPE_NAMES: &[&str] = &["a", "Int", "_x1"];
 
